@@ -177,7 +177,9 @@ class LabReplay:
                 out.call = f"{ev['n']}.dilute({ev['solute']}, {cs!r}, {ev['solvent']})"
                 out.extra["conc_str"] = cs
                 self.counts["impl_calls"] += 1
-                out.new = {ev["n"]: tgt.dilute(inst.subs[ev["solute"]], cs, inst.subs[ev["solvent"]])}
+                # every other dilution goes through the branch that names the result (here: with the same name)
+                kw = {"name": tgt.name} if inst.pick([0, 1], salt + "name") else {}
+                out.new = {ev["n"]: tgt.dilute(inst.subs[ev["solute"]], cs, inst.subs[ev["solvent"]], **kw)}
             elif op == "new":
                 entries = [(inst.subs[e[0]], inst.quantity(rat(e[1]), "U" if model.is_enzyme(e[0]) else "mol", salt + str(i)))
                            for i, e in enumerate(ev["entries"])]
